@@ -189,7 +189,7 @@ package datatypes
 // and the handlers are told exactly once (C13, C16).
 //@ func (*WiredDatatype).ApplyPushPullPack
 //@   mode wrap
-//@   props C13 C16 C05 C07
+//@   props C13 C16 C05 C07 C08
 //@   requires wiredWF(its) && its.opID != nil && its.wire != nil && its.BaseDatatype.Datatype != nil && its.BaseDatatype.ctx != nil
 //@   requires ppp != nil && ppp.CheckPoint != nil && ppp.CheckPoint != its.checkPoint && opsWF(ppp.Operations)
 //@   requires[server-reply-shape] (ppp.GetPushPullPackOption().HasErrorBit() || ppp.GetPushPullPackOption().HasSubscribeBit()) ==> len(ppp.Operations) >= 1
